@@ -37,7 +37,11 @@ RAWS = {
     "rset": ["b", "set", [["a"], ["a"]]],
 }
 LEAVES = [["atom"], ["set"], ["iset"], ["ref", False], ["ref", True]] + [["raw", RAWS[k]] for k in sorted(RAWS)] + \
-         [["mapraw", RAWS["rlist"]], ["mapraw", ["a"]]]
+         [["mapraw", RAWS["rlist"]], ["mapraw", ["a"]]] + \
+         [["arrraw", RAWS["rlist"]], ["arrraw", RAWS["rdict"]], ["deqraw", RAWS["rlist"]], ["arrpre", RAWS["rlist"]]]
+# arrraw / deqraw: an UNTYPED Array / Deque (no items) holding two raw objects; arrpre: a positional prefix
+# items=[Integer()] followed by one free-form raw element
+SEQRAW = {"arrraw": "Array()", "deqraw": "Deque()", "arrpre": "Array[Integer,..]"}
 CONTAINERS = ["arr", "deq", "map", "tup"]
 
 
@@ -74,6 +78,8 @@ def decl_name(d):
         return "Map()(%s)" % ("atom" if d[1] == ["a"] else "rlist")
     if t == "ref":
         return "IInner" if d[1] else "Inner"
+    if t in SEQRAW:
+        return "%s(%s)" % (SEQRAW[t], [k for k, v in RAWS.items() if v == d[1]][0])
     return {"atom": "Integer", "set": "Set", "iset": "ImmutableSet"}[t]
 
 
@@ -101,6 +107,12 @@ def field_src(d, top_kw=""):
         return "Anything(%s)" % top_kw
     if t == "mapraw":
         return "Map(%s)" % top_kw
+    if t == "arrraw":
+        return "Array(%s)" % top_kw
+    if t == "deqraw":
+        return "Deque(%s)" % top_kw
+    if t == "arrpre":
+        return "Array(items=[Integer()]%s)" % kw
     if t == "ref":
         if top_kw:
             raise ValueError("class reference cannot be declared immutable")
@@ -197,6 +209,12 @@ def value_of(d, ctr):
         return raw_value(d[1], ctr)
     if t == "mapraw":
         return {"k0": raw_value(d[1], ctr), "k1": raw_value(d[1], ctr)}
+    if t == "arrraw":
+        return [raw_value(d[1], ctr), raw_value(d[1], ctr)]
+    if t == "deqraw":
+        return deque([raw_value(d[1], ctr), raw_value(d[1], ctr)])
+    if t == "arrpre":
+        return [ctr.atom(), raw_value(d[1], ctr)]
     if t == "ref":
         a, b, c = ctr.atom(), ctr.atom(), ctr.atom()
         return ns["IInner" if d[1] else "Inner"](a=a, l=[b, c])
@@ -581,7 +599,8 @@ def chain_of(d, path):
     for _ in range(len(path) + 1):
         t = d[0]
         names.append({"arr": "Array", "deq": "Deque", "map": "Map", "tup": "Tuple", "set": "Set", "iset": "ImmutableSet",
-                      "raw": "Anything", "mapraw": "Map()", "ref": "IInner" if (t == "ref" and d[1]) else "Inner",
+                      "raw": "Anything", "mapraw": "Map()", "arrraw": "Array()", "deqraw": "Deque()",
+                      "arrpre": "Array[Integer,..]", "ref": "IInner" if (t == "ref" and d[1]) else "Inner",
                       "atom": "Integer"}.get(t, t))
         if t in CONTAINERS:
             d = d[1]
@@ -929,6 +948,8 @@ def emit_decl(d):
         return "(DRaw %s)" % emit_obj(d[1])
     if t == "mapraw":
         return "(DMapRaw %s)" % emit_obj(d[1])
+    if t in SEQRAW:
+        return "(%s %s)" % ({"arrraw": "DArrRaw", "deqraw": "DDeqRaw", "arrpre": "DArrPre"}[t], emit_obj(d[1]))
     if t == "ref":
         return "(DRef %s)" % E.blit(d[1])
     raise ValueError(d)
